@@ -1039,7 +1039,7 @@ func (r *reader) resolveToken(token []byte) Object {
 			}
 		}
 	}
-	return Symbol(token)
+	return Symbol(buf)
 }
 
 const hexByteValues = "" +
